@@ -54,18 +54,18 @@ func own(g int) uint64 { return uint64(7*g + 3) }
 
 func exec(line string) (res h.Result) {
 	w := strings.Fields(line)
+	// every case runs in a child process: a panic in a goroutine of the code under test (double
+	// close of a reply channel, …) then costs one case, not the run, and the case line is the replay
+	if os.Getenv("VERIF_C17_CHILD") == "" {
+		return execChild(line, w)
+	}
+	initLog()
 	switch w[0] {
 	case "disp":
-		initLog()
 		return execDisp(w[1])
 	case "obj":
-		initLog()
 		return execObj(w[1])
 	case "net":
-		if os.Getenv("VERIF_C17_CHILD") == "" {
-			return execChild(line, w)
-		}
-		initLog()
 		return execNet(w[1], w[2])
 	}
 	panic("bad case line")
@@ -106,6 +106,8 @@ func classify(r interface{}, err error) string {
 
 const marker = uint64(1) << 62
 
+var hangsSeen int
+
 func execDisp(ops string) (res h.Result) {
 	d := p2p.VerifNewDispatcher([]byte("me"), 0)
 	var reqs []*p2p.VerifRequest
@@ -132,7 +134,9 @@ func execDisp(ops string) (res h.Result) {
 		i := len(reqs)
 		r := p2p.VerifNewRequest(context.Background(), isReply, []byte("peer"), &p2p.Ping{Count: uint64(i)}, nonce)
 		reqs = append(reqs, r)
+		omu.Lock() // waiters write outcome[i] concurrently: the append may move the slice
 		outcome = append(outcome, "hang")
+		omu.Unlock()
 		ch := make(chan struct{})
 		done = append(done, ch)
 		go func() {
@@ -224,10 +228,25 @@ func execDisp(ops string) (res h.Result) {
 		}
 	}
 	d.Cancel()
+	// one deadline for all: a request that is never completed shows as "hang"; once a few cases of
+	// this process have shown it (the violation is established) later cases wait less
+	wait := 3 * time.Second
+	if hangsSeen >= 3 {
+		wait = 150 * time.Millisecond
+	}
+	final := time.After(wait)
 	for i := range done {
 		select {
 		case <-done[i]:
-		case <-time.After(5 * time.Second):
+		case <-final:
+			final = nil
+			select {
+			case <-done[i]:
+			default:
+			}
+		}
+		if final == nil {
+			break
 		}
 	}
 	// at most one value, closed at most once: the channel of every completed request is closed and empty
@@ -237,6 +256,9 @@ func execDisp(ops string) (res h.Result) {
 		st, v, _ := r.TryRecv()
 		if st == 1 {
 			res.Oracle = fmt.Sprintf("second-value: request %d's reply channel carried a second value %v", i, v)
+		}
+		if outcome[i] == "hang" {
+			hangsSeen++
 		}
 		if outcome[i] == "hang" && res.Oracle == "" {
 			res.Oracle = fmt.Sprintf("request-never-returned: request %d still waiting after the connection context ended", i)
@@ -433,7 +455,24 @@ func execChild(line string, w []string) (res h.Result) {
 		cmd.Process.Kill()
 		err = fmt.Errorf("timeout")
 	}
-	res.Class, res.Nontrivial = netClass(w[1], w[2])
+	switch w[0] {
+	case "net":
+		res.Class, res.Nontrivial = netClass(w[1], w[2])
+	case "obj":
+		res.Class, res.Nontrivial = "obj", strings.Count(w[1], "f") >= 2
+	default:
+		ops := split(w[1])
+		sends, faults := 0, 0
+		for _, o := range ops {
+			if o[0] == 's' {
+				sends++
+			}
+			if o[0] == 'p' || o[0] == 'c' {
+				faults++
+			}
+		}
+		res.Class, res.Nontrivial = fmt.Sprintf("disp-%dops", len(ops)/20*20), sends >= 2 || faults > 0
+	}
 	if err != nil {
 		msg := errb.String()
 		if i := strings.Index(msg, "panic:"); i >= 0 {
@@ -445,7 +484,11 @@ func execChild(line string, w []string) (res h.Result) {
 			msg = msg[:300]
 		}
 		res.Impl = "crash"
-		res.Oracle = "node-crashed: " + h.OneLine(err.Error()+" "+msg)
+		sig := "node-crashed"
+		if strings.Contains(errb.String(), "close of closed channel") {
+			sig = "reply-channel-closed-twice"
+		}
+		res.Oracle = sig + ": " + h.OneLine(err.Error()+" "+msg)
 		return
 	}
 	lines := strings.Split(strings.TrimRight(out.String(), "\n"), "\n")
